@@ -83,7 +83,7 @@ func (opts *CBCEncrypterOpts) Encrypt(rand io.Reader, key, plaintext []byte) ([]
 	if err != nil {
 		return nil, err
 	}
-	paddedPlainText := opts.padding.Pad(plaintext)
+	paddedPlainText := opts.padding.Pad(plaintext[:len(plaintext):len(plaintext)]) // never pad into the caller's spare capacity
 	blockSize := block.BlockSize()
 	ciphertext := make([]byte, blockSize+len(paddedPlainText))
 	iv := ciphertext[:blockSize]
@@ -135,7 +135,7 @@ func (opts *ECBEncrypterOpts) Encrypt(rand io.Reader, key, plaintext []byte) ([]
 	if err != nil {
 		return nil, err
 	}
-	paddedPlainText := opts.padding.Pad(plaintext)
+	paddedPlainText := opts.padding.Pad(plaintext[:len(plaintext):len(plaintext)]) // never pad into the caller's spare capacity
 	ciphertext := make([]byte, len(paddedPlainText))
 	mode := _cipher.NewECBEncrypter(block)
 	mode.CryptBlocks(ciphertext, paddedPlainText)
